@@ -121,6 +121,17 @@ class P(Prop):
             sg = [[C.bits(e)] + [C.bits(rng.choice([1.0, -2.0, 3.0, 0.5])) for _ in range(G.arity(ty))] for e in es]
             kn = [C.bits(rng.choice([2.0 ** -1060, 2.0 ** -1045, 2.0 ** -1040])), C.bits(0.0)]
             out.append(dict(op="pw_integral_all", ty=ty, segs=sg, knot=kn, libm=True, meta={"class": "integral/subnormal_ends"}))
+        # log pieces with breakpoints and the anchor within about 1% of 1 (|ln| tiny but not zero), the quartic degree in particular
+        for _ in range(14 if tier == "quick" else 160):
+            ty = rng.choice(["Log<Poly4>", "Log<Poly4>", "Log<Poly4>", "Log<Poly2>", "Log<Poly5>"])
+            k = rng.randint(2, 5)
+            es = sorted(set(1.0 + rng.choice([-1, 1]) * rng.choice([rng.uniform(1e-4, 1.2e-2), 2.0 ** -rng.randint(7, 30), rng.uniform(1e-7, 1e-4)]) for _ in range(k)))
+            if rng.random() < 0.4:
+                es.append(rng.choice([1.5, 2.0, 7.0]))
+            sg = [[C.bits(e)] + [C.bits(rng.choice([rng.small_int(-4, 4), rng.uniform(-2, 2)])) for _ in range(G.arity(ty))] for e in es]
+            kx = rng.choice([es[0], 0.5, 0.996, 1.0, 1.0 - 2.0 ** -12, es[0] * 0.999])
+            kn = [C.bits(kx), C.bits(rng.choice([0.0, 1.0, rng.uniform(-3, 3)]))]
+            out.append(dict(op="pw_integral_all", ty=ty, segs=sg, knot=kn, libm=True, meta={"class": "integral/near_one"}))
         out.append(dict(op="pw_indefinite", ty="Poly2", segs=[], meta={"class": "indefinite/empty"}))
         # indefinite() of functions whose FIRST piece is open-ended (end = +inf) or whose antiderivative overflows at its end:
         # the first piece must come back with additive constant zero, whatever its value at its breakpoint is
